@@ -33,8 +33,11 @@ class OptKernels:
         for n in ("unwrap", "unwrap_into", "jmp_not_nil"):
             self.fn[n] = targets.find_one(mf, r"^(implementations::)?%s$" % n)
 
-    def run(self, ins, iargs, kinds):
+    def run(self, ins, iargs, kinds, existing=False):
         cells = {}
+        if existing:
+            # the `?=` target already holds a present value (Ctx::load_variable finds it)
+            cells[("var", iargs[0])] = K.prim("Int", sym.bv("i32", 7))
         inputs = [K.opt_payload(k, "ab"[i]) for i, k in enumerate(kinds)]
         ops = [K.opt_prim(cells, ("heap", i), k, inputs[i]) for i, k in enumerate(kinds)]
         cells[("ctx",)] = Adt("Ctx", None, [Adt("Vec", None, ops)] + [Opaque("ctx-field", i) for i in range(1, 6)])
@@ -172,19 +175,20 @@ def check(scratch, nat, a, t0):
                 if r == "sat":
                     finding(ins, [k1, k2], "wrong-truth-value", vals, "`%s` gives the wrong answer" % ("==" if ins == "equ" else "!="))
     # ---------------- unwrap / unwrap_into / jmp_not_nil
-    for k in SHAPES:
+    for k in SHAPES + K.HEAP_KINDS:
         ps_k = None
-        for ins, iargs in (("unwrap", [SPAN]), ("unwrap_into", ["target"]), ("jmp_not_nil", ["3"])):
-            inputs, outs = ok_.run(ins, iargs, [k])
+        for ins, iargs, existing in (("unwrap", [SPAN], False), ("unwrap_into", ["target"], False), ("unwrap_into", ["target"], True), ("jmp_not_nil", ["3"], False)):
+            inputs, outs = ok_.run(ins, iargs, [k], existing=existing)
             ps = pseudo([k], inputs)
-            lab = "%s[%s]" % (ins, k)
+            lab = "%s[%s]%s" % (ins, k, "/existing-target" if existing else "")
             for pi, o in enumerate(outs):
                 pc = z3.And(*o.pc) if o.pc else z3.BoolVal(True)
                 bad = check_outcome(ins, k, inputs[0], o, iargs)
                 for cls, cond, detail in bad:
                     r, vals = Q.decide(z3.And(pc, cond), ps, qs, timeout_ms, V.seed(), "%s:path%d:%s" % (lab, pi, cls))
                     if r == "sat":
-                        finding(ins, [k], cls, vals, detail)
+                        f = finding(ins, [k], cls + ("/existing-target" if existing else ""), vals, detail)
+                        f.existing = existing
     # ---------------- native validation + replay: every kernel instance on the boundary grid, predicted vs real
     nvec, mism = validate(ok_, nat)
     if mism:
@@ -200,7 +204,8 @@ def check_outcome(ins, k, payload, o, iargs):
     """-> list of (class, violating condition, detail) for one feasible outcome of an optional instruction"""
     T = z3.BoolVal(True)
     out = []
-    present = k != "Nil"
+    present = K.unheap(k) != "Nil"
+    optional = K.unheap(k).startswith("Some") or K.unheap(k) == "Nil"
     base = K.base_kind(k)
     failed = o.kind == "panic" or o.value.variant == "Err"
     if o.kind == "panic":
@@ -217,10 +222,15 @@ def check_outcome(ins, k, payload, o, iargs):
             out.append(("get-of-present-fails", T, "`get` of a present value fails"))
             return out
         st = stack_of(o)
-        if len(st) != 1 or st[0].variant != base:
-            out.append(("get-wrong-kind", T, "`get` leaves %r" % (st,)))
+        if len(st) != 1:
+            out.append(("get-wrong-kind", T, "`get` leaves %d values" % len(st)))
+            return out
+        kind, pv = K.decode_prim(o.cells, st[0])
+        want_kind = base if optional else k       # a present optional is replaced by its payload; a plain value is left as it is
+        if kind != want_kind:
+            out.append(("get-wrong-kind", T, "`get` leaves a %s where %s was expected" % (kind, want_kind)))
         else:
-            out.append(("get-wrong-value", st[0].fields[0].e != payload.e, "`get` yields a value different from the payload"))
+            out.append(("get-wrong-value", pv.e != payload.e, "`get` yields a value different from the payload"))
         return out
     if ins == "unwrap_into":
         if failed:
@@ -274,10 +284,10 @@ def is_goto(eff, n):
 
 
 # ---------------------------------------------------------------- native side
-def predict(ok_, ins, iargs, kinds, vals):
+def predict(ok_, ins, iargs, kinds, vals, existing=False):
     """engine-B prediction of what the native harness prints for concrete operands"""
-    inputs, outs = ok_.run(ins, iargs, kinds)
-    subs = [(inputs[i].e, K.const_of("Byte" if kinds[i] == "Nil" else K.base_kind(kinds[i]), vals[i])) for i in range(len(kinds))]
+    inputs, outs = ok_.run(ins, iargs, kinds, existing=existing)
+    subs = [(inputs[i].e, K.const_of("Byte" if K.unheap(kinds[i]) == "Nil" else K.base_kind(kinds[i]), vals[i])) for i in range(len(kinds))]
     hits = []
     for o in outs:
         c = z3.simplify(z3.substitute(z3.And(*o.pc) if o.pc else z3.BoolVal(True), *subs))
@@ -310,8 +320,8 @@ def predict(ok_, ins, iargs, kinds, vals):
 
 def show(cells, p, subs):
     kind, pv = K.decode_prim(cells, p)
-    if kind == "Nil":
-        return "Nil:0"
+    if K.unheap(kind) == "Nil":
+        return kind + ":0"
     b = K.value_bits(K.base_kind(kind), z3.substitute(pv.e, *subs))
     return "%s:%s" % (kind, b if b == "nan" else "%x" % b)
 
@@ -322,8 +332,8 @@ def all_instances():
         for k1, k2 in itertools.product(SHAPES, SHAPES):
             if not (k1 in PLAIN and k2 in PLAIN):
                 out.append((ins, [], [k1, k2]))
-    for k in SHAPES:
-        out += [("unwrap", [SPAN], [k]), ("unwrap_into", ["target"], [k]), ("jmp_not_nil", ["3"], [k])]
+    for k in SHAPES + K.HEAP_KINDS:
+        out += [("unwrap", [SPAN], [k]), ("unwrap_into", ["target"], [k]), ("unwrap_into", ["target:existing"], [k]), ("jmp_not_nil", ["3"], [k])]
     return out
 
 
@@ -336,12 +346,14 @@ def validate(ok_, nat):
     vecs, preds = [], {}
     n = 0
     for ins, iargs, kinds in all_instances():
-        sets = [SMALL[K.base_kind(k)] if k != "Nil" else [0] for k in kinds]
+        sets = [SMALL[K.base_kind(k)] if K.unheap(k) != "Nil" else [0] for k in kinds]
+        existing = bool(iargs) and iargs[0].endswith(":existing")
+        clean = [iargs[0][:-9]] if existing else iargs
         for vals in itertools.product(*sets):
             vid = "v%d" % n
             n += 1
             vecs.append((vid, "O:%s%s" % (ins, (":" + iargs[0]) if iargs else ""), [(kinds[i], vals[i]) for i in range(len(kinds))]))
-            preds[vid] = (predict(ok_, ins, iargs, kinds, list(vals)), ins, kinds, vals)
+            preds[vid] = (predict(ok_, ins, clean, kinds, list(vals), existing=existing), ins, kinds, vals)
     res = nat.eval_raw(vecs, False)
     mism = []
     for vid, (p, ins, kinds, vals) in preds.items():
@@ -361,7 +373,7 @@ def confirm(findings, nat):
     vecs = []
     for i, f in enumerate(findings):
         kinds = f.arm.split(",")
-        iargs = {"unwrap": [SPAN], "unwrap_into": ["target"], "jmp_not_nil": ["3"]}.get(f.op, [])
+        iargs = {"unwrap": [SPAN], "unwrap_into": ["target:existing" if getattr(f, "existing", False) or "existing-target" in f.cls else "target"], "jmp_not_nil": ["3"]}.get(f.op, [])
         f.native_op = "O:%s%s" % (f.op, (":" + iargs[0]) if iargs else "")
         vecs.append(("w%d" % i, f.native_op, f.witness))
     res = nat.eval_raw(vecs, False)
@@ -402,11 +414,13 @@ def judge_native(f):
         return toks[1:2] != ["Bool:%x" % int(want)]
     # instruction kernels: engine-B's verdict was on a prediction that the validation grid has shown faithful; require the
     # real result to show the same defect class
-    present = kinds[0] != "Nil"
+    present = K.unheap(kinds[0]) != "Nil"
+    optional = K.unheap(kinds[0]).startswith("Some") or not present
     if f.op == "unwrap":
         if not present:
             return toks[:1] == ["STACK"] or f.cls == "error-lacks-span"
-        return toks[:1] != ["STACK"] or toks[1:2] != ["%s:%x" % (K.base_kind(kinds[0]), vals[0])]
+        want = "%s:%x" % (K.base_kind(kinds[0]) if optional else kinds[0], vals[0])
+        return toks[:1] != ["STACK"] or toks[1:2] != [want]
     if f.op == "unwrap_into":
         if toks[:1] != ["STACK"]:
             return True
